@@ -84,7 +84,8 @@ type c01Params struct {
 	collide    bool
 	aead       uint16
 	stale      bool
-	relayBuf   int // size of the backend -> client copy buffer
+	relayBuf   int  // size of the backend -> client copy buffer
+	noCCS      bool // the client does not use middlebox compatibility mode: no dummy change_cipher_spec before its second flight (RFC 8446 D.4: optional)
 }
 
 func curveList(c string, server bool) []tls.CurveID {
@@ -100,6 +101,34 @@ func curveList(c string, server bool) []tls.CurveID {
 		return []tls.CurveID{tls.X25519, tls.CurveP256}
 	}
 	return []tls.CurveID{tls.X25519}
+}
+
+// ccsDropper is a client that does not send the compatibility change_cipher_spec: crypto/tls always
+// does, so the record (unauthenticated, ignored by every TLS 1.3 server) is taken out of what it writes.
+type ccsDropper struct {
+	net.Conn
+	buf []byte
+}
+
+func (c *ccsDropper) Write(b []byte) (int, error) {
+	c.buf = append(c.buf, b...)
+	var out []byte
+	for len(c.buf) >= 5 {
+		n := 5 + (int(c.buf[3])<<8 | int(c.buf[4]))
+		if len(c.buf) < n {
+			break
+		}
+		if !(c.buf[0] == 20 && n == 6 && c.buf[5] == 1) {
+			out = append(out, c.buf[:n]...)
+		}
+		c.buf = c.buf[n:]
+	}
+	if len(out) > 0 {
+		if _, err := c.Conn.Write(out); err != nil {
+			return 0, err
+		}
+	}
+	return len(b), nil
 }
 
 type c01Run struct {
@@ -266,7 +295,11 @@ func oneHandshake(p c01Params, keys []ech.Key, clientCfg *tls.Config, backendCfg
 		}()
 		frontDone <- fr
 	}()
-	cli := tls.Client(c1, clientCfg)
+	var cliConn net.Conn = c1
+	if p.noCCS {
+		cliConn = &ccsDropper{Conn: c1}
+	}
+	cli := tls.Client(cliConn, clientCfg)
 	herr := cli.Handshake()
 	var fr frontRes
 	select {
@@ -384,6 +417,7 @@ func genC01(env *core.Env, emit func(core.Case)) {
 			aead:       uint16(1 + r.IntN(3)),
 			stale:      r.IntN(4) == 0,
 			relayBuf:   []int{1460, 4096, 16384, 32 * 1024}[r.IntN(4)],
+			noCCS:      r.IntN(2) == 0,
 		}
 		nl := []int{3, 5, 63, 200, 253}[r.IntN(5)]
 		p.innerName = dnsName(r.IntN, nl)
